@@ -1,1 +1,176 @@
-// workload generators
+//! workload generators: weight vectors, set pair shapes, streams, sequences
+use crate::common::*;
+use rand::Rng as _;
+use rand::RngCore;
+use rand_distr::{Distribution, StandardNormal};
+
+/// a pair of weighted sets over a common index space 0..n (weight 0 = absent)
+#[derive(Clone, Debug)]
+pub struct PairSpec {
+    pub name: String,
+    pub wa: Vec<f64>,
+    pub wb: Vec<f64>,
+}
+
+pub const WEIGHT_FAMILIES: [&str; 7] = ["equal", "geometric", "lognormal3", "one_heavy", "two_level", "tiny_huge_mix", "integer_counts"];
+pub const OVERLAPS: [&str; 6] = ["disjoint", "identical", "nested", "partial_same_w", "partial_diff_w", "scaled_copy"];
+
+/// weights of a family for n items
+pub fn weights(family: &str, n: usize, rng: &mut Rng) -> Vec<f64> {
+    match family {
+        "equal" => vec![1.0; n],
+        "geometric" => {
+            // spread up to 1e6
+            let r = if n > 1 { (1e6f64).powf(1. / (n as f64 - 1.)) } else { 1. };
+            (0..n).map(|i| r.powi(i as i32)).collect()
+        }
+        "lognormal3" => (0..n).map(|_| {
+            let z: f64 = StandardNormal.sample(rng);
+            (3. * z).exp()
+        }).collect(),
+        "one_heavy" => {
+            // one item carries 99.9 %
+            let mut w = vec![1.0; n];
+            if n > 1 {
+                w[0] = 999. * (n as f64 - 1.);
+            }
+            w
+        }
+        "two_level" => (0..n).map(|i| if i % 2 == 0 { 1. } else { 100. }).collect(),
+        "tiny_huge_mix" => (0..n).map(|_| 10f64.powf(rng.random_range(-9.0..6.0))).collect(),
+        "integer_counts" => (0..n).map(|_| rng.random_range(1..20u32) as f64).collect(),
+        _ => panic!("unknown family"),
+    }
+}
+
+/// builds a pair over n union items
+pub fn pair(family: &str, overlap: &str, n: usize, rng: &mut Rng) -> PairSpec {
+    let w = weights(family, n, rng);
+    let mut w2 = weights(family, n, rng);
+    // decorrelate positions for deterministic families
+    if matches!(family, "geometric" | "one_heavy" | "two_level") {
+        for i in (1..n).rev() {
+            let j = rng.random_range(0..=i);
+            w2.swap(i, j);
+        }
+    }
+    let mut wa = vec![0.; n];
+    let mut wb = vec![0.; n];
+    match overlap {
+        "disjoint" => {
+            let h = (n / 2).max(1);
+            for i in 0..n {
+                if i < h {
+                    wa[i] = w[i];
+                } else {
+                    wb[i] = w[i];
+                }
+            }
+            if n == 1 {
+                // cannot be disjoint with one item : make B a different singleton by convention of the caller (n>=2 required)
+                wb[0] = 0.;
+            }
+        }
+        "identical" => {
+            wa = w.clone();
+            wb = w;
+        }
+        "nested" => {
+            // A subset of B, same weights on A
+            let h = (n / 3).max(1);
+            for i in 0..n {
+                wb[i] = w[i];
+                if i < h {
+                    wa[i] = w[i];
+                }
+            }
+        }
+        "partial_same_w" => {
+            // thirds : A only, both (same weight), B only
+            for i in 0..n {
+                match i % 3 {
+                    0 => wa[i] = w[i],
+                    1 => {
+                        wa[i] = w[i];
+                        wb[i] = w[i];
+                    }
+                    _ => wb[i] = w[i],
+                }
+            }
+        }
+        "partial_diff_w" => {
+            for i in 0..n {
+                match i % 4 {
+                    0 => wa[i] = w[i],
+                    1 | 2 => {
+                        wa[i] = w[i];
+                        wb[i] = w2[i];
+                    }
+                    _ => wb[i] = w2[i],
+                }
+            }
+        }
+        "scaled_copy" => {
+            // B = 7.5 * A : J_P must be exactly 1 in expectation (scale invariance) -- estimate is 1 only if races agree exactly,
+            // which is not guaranteed bitwise for a non power of two factor; used with factor 8 (exact) in C02, here factor 8 too
+            for i in 0..n {
+                wa[i] = w[i];
+                wb[i] = 8. * w[i];
+            }
+        }
+        _ => panic!("unknown overlap"),
+    }
+    PairSpec { name: format!("{}/{}/n={}", family, overlap, n), wa, wb }
+}
+
+/// probability Jaccard index J_P = sum_{i in A∩B} 1 / sum_j max(wa_j/wa_i, wb_j/wb_i)
+pub fn jp(wa: &[f64], wb: &[f64]) -> f64 {
+    let n = wa.len();
+    let mut s = 0.;
+    for i in 0..n {
+        if wa[i] > 0. && wb[i] > 0. {
+            let mut den = 0.;
+            for j in 0..n {
+                den += (wa[j] / wa[i]).max(wb[j] / wb[i]);
+            }
+            s += 1. / den;
+        }
+    }
+    s
+}
+
+/// n distinct random identifiers, none equal to `avoid`
+pub fn fresh_ids(rng: &mut Rng, n: usize, avoid: u64) -> Vec<u64> {
+    let mut v: Vec<u64> = Vec::with_capacity(n);
+    while v.len() < n {
+        let x = rng.next_u64();
+        if x != avoid && x != 0 {
+            v.push(x);
+        }
+    }
+    // distinctness: 64-bit collisions among <= 1e6 draws have probability < 3e-8; enforce for small n cheaply
+    if n <= 64 {
+        loop {
+            let mut dup = false;
+            for i in 0..n {
+                for j in 0..i {
+                    if v[i] == v[j] {
+                        v[i] = rng.next_u64() | 1;
+                        dup = true;
+                    }
+                }
+            }
+            if !dup {
+                break;
+            }
+        }
+    }
+    v
+}
+
+pub fn shuffle<T>(v: &mut [T], rng: &mut Rng) {
+    for i in (1..v.len()).rev() {
+        let j = rng.random_range(0..=i);
+        v.swap(i, j);
+    }
+}
